@@ -138,7 +138,7 @@ func init() {
 				W:       weights(Weights{"commit": 25, "log": 14, "add-all": 10, "write": 14, "write-old": 10, "reset": 4, "switch": 3, "switch-c": 3, "restore": 0, "rm": 1, "junk": 0}),
 				Oracles: []HistOracle{orC14}}
 		})
-	checks["C17"] = histCheck("C17", []string{"C17.world_no_meta_partial", "C17.world_add_rm_no_meta", "C17.matches_dir", "C17.matches_ext", "C17.nothing_hidden_without_ignore", "C17.meta_always", "C17.addArgs_no_meta", "C17.ignored_meta", "C17.add_skips_meta_arg", "C17.status_never_lists_ignored", "C13.untracked_iff", "C17.restore_never_writes_meta", "C17.restoreStaged_no_meta"}, histRule,
+	checks["C17"] = histCheck("C17", []string{"C17.world_no_meta", "C17.world_no_meta_partial", "C17.world_add_rm_no_meta", "C17.matches_dir", "C17.matches_ext", "C17.nothing_hidden_without_ignore", "C17.meta_always", "C17.addArgs_no_meta", "C17.ignored_meta", "C17.add_skips_meta_arg", "C17.status_never_lists_ignored", "C13.untracked_iff", "C17.restore_never_writes_meta", "C17.restoreStaged_no_meta"}, histRule,
 		func(ctx *Ctx) *HistCfg {
 			return &HistCfg{Prop: "C17", Cases: tierN(ctx, 200, 2000), MinSteps: 8, MaxSteps: 30,
 				W:       weights(Weights{"ignore": 5, "ignore-probe": 5, "nested-ignore-probe": 5, "add": 20, "add-all": 10, "status": 10, "write": 20, "commit": 5, "reset": 2, "restore": 2, "junk": 0}),
@@ -183,7 +183,7 @@ func init() {
 				W:       weights(Weights{"commit": 18, "add-all": 8, "add": 14, "rm": 6, "reset": 8, "rename-reset": 3, "ls-files": 6, "cat-file": 6, "write": 18, "junk": 0}),
 				Oracles: []HistOracle{orC05, orC08}, PreReset: true, CatTrees: true}
 		})
-	checks["C06"] = histCheck("C06", []string{"C06.world_index_canonical_partial", "C06.decode_encode", "C06.getEntry_correct", "C06.isDir_iff", "C06.mem_byDir", "C06.byDir_sublist", "C04.eraseIdx_canonical", "C04.sortEntries_sorted"}, histRule,
+	checks["C06"] = histCheck("C06", []string{"C06.world_index_canonical", "C06.world_commits_read_back_canonical", "C06.world_step_index_canonical", "C06.world_index_canonical_partial", "C06.decode_encode", "C06.getEntry_correct", "C06.isDir_iff", "C06.mem_byDir", "C06.byDir_sublist", "C04.eraseIdx_canonical", "C04.sortEntries_sorted"}, histRule,
 		func(ctx *Ctx) *HistCfg {
 			return &HistCfg{Prop: "C06", Cases: tierN(ctx, 150, 1500), MinSteps: 8, MaxSteps: 30,
 				W:       weights(Weights{"add": 20, "rm": 10, "restore": 10, "reset": 4, "commit": 8, "write": 16, "rmdir": 4, "junk": 0}),
